@@ -43,9 +43,12 @@ func buildFamily(family, tier string, seed int64) []*Scenario {
 		g.bound = ""
 		out = append(out, g.famBounds("ay", numeric)...)
 		out = append(out, g.famTwoLevel("az", []string{"gt", "gte", "lt", "lte"}, numeric)...)
+		out = append(out, g.famSpelled("as", []string{"gt", "gte", "lt", "lte"}, []*TypeX{basicT("int", "Int"), basicT("uint8", "Uint8"), basicT("int64", "Int64"), basicT("float64", "Float64"), basicT("float32", "Float32")})...)
 	case "c02":
 		out = append(out, g.corpusC07("b")...) // path-collision and deep-nesting shapes with `required`
 		out = append(out, g.famDeep("bd", n(15, 60))...)
+		out = append(out, g.famImported("b")...)
+		out = append(out, g.famGrouped("b")...)
 		rep(n(1, 40), func(i int) []*Scenario { return g.famMatrix(fmt.Sprintf("b%03d", i), []string{"required"}, allTypes, 12, true) })
 	case "c03":
 		rep(n(3, 120), func(i int) []*Scenario {
@@ -54,9 +57,12 @@ func buildFamily(family, tier string, seed int64) []*Scenario {
 		out = append(out, g.famCombo("cz", n(12, 600), []string{"minlength", "maxlength", "length"})...)
 		out = append(out, g.famTwoLevel("cy", []string{"minlength", "maxlength", "length"}, []*TypeX{stringT})...)
 		out = append(out, g.corpusC07("cx")...)
+		out = append(out, g.famSpelled("cs", []string{"minlength", "maxlength", "length"}, []*TypeX{stringT})...)
 	case "c04":
 		rep(n(2, 72), func(i int) []*Scenario { return g.famMatrix(fmt.Sprintf("d%03d", i), []string{"minitems", "maxitems"}, collTypes, 12, true) })
 		out = append(out, g.famTwoLevel("dy", []string{"minitems", "maxitems"}, collTypes)...)
+		out = append(out, g.famCollCombo("dc")...)
+		out = append(out, g.famSpelled("ds", []string{"minitems", "maxitems"}, []*TypeX{collTypes[0], collTypes[5], collTypes[2]})...)
 	case "c05":
 		ts := append([]*TypeX{stringT}, numeric...)
 		rep(n(2, 90), func(i int) []*Scenario { return g.famMatrix(fmt.Sprintf("e%03d", i), []string{"enum"}, ts, 12, true) })
@@ -66,21 +72,29 @@ func buildFamily(family, tier string, seed int64) []*Scenario {
 			out = append(out, g.famMatrix(fmt.Sprintf("ep%02d", i), []string{"enum"}, []*TypeX{stringT}, 4, true)...)
 		}
 		g.pool = 0
+		out = append(out, g.famEnumCombo("ec")...)
 	case "c06":
 		rep(n(2, 72), func(i int) []*Scenario {
 			return g.famMatrix(fmt.Sprintf("f%03d", i), []string{"email", "url", "uuid", "alpha", "numeric", "ipv4", "ipv6"}, []*TypeX{stringT}, 7, true)
 		})
 		out = append(out, g.famCombo("fz", n(12, 600), []string{"email", "url", "uuid", "alpha", "numeric", "ipv4", "ipv6"})...)
+		out = append(out, g.famNames("f", []string{"email", "url", "uuid", "alpha", "numeric", "ipv4", "ipv6"})...)
 	case "c09":
 		out = append(g.corpusC07("s"), g.famShapes("s", n(25, 100), n(6, 25))...)
 		out = append(out, g.famDeep("sd", n(15, 60))...)
 		out = append(out, g.corpusDoc("s")...)
+		out = append(out, g.famImported("s")...)
+		out = append(out, g.famGrouped("s")...)
+		out = append(out, g.corpusRepeat("s")...)
+		out = append(out, g.famSpelled("ss", []string{"gt", "minlength", "minitems", "lte"}, []*TypeX{basicT("int", "Int"), stringT, collTypes[0]})...)
 	case "c08":
 		out = g.famC08("w", n(30, 150))
 	case "c07":
 		out = append(g.corpusC07("r"), g.famRandom("r", n(24, 120), 8)...)
 		out = append(out, g.corpusDoc("r")...)
 		out = append(out, g.famWide("rw")...)
+		out = append(out, g.famImported("r")...)
+		out = append(out, g.famNames("r", []string{"required", "minlength", "enum"})...)
 	case "random":
 		out = g.famRandom("r", n(24, 120), 8)
 	case "all":
@@ -94,6 +108,9 @@ func buildFamily(family, tier string, seed int64) []*Scenario {
 		out = append(out, g.famRandom("r", n(12, 60), 8)...)
 		out = append(out, g.famWide("mw")...)
 		out = append(out, g.famBig("m")...)
+		out = append(out, g.famImported("m")...)
+		out = append(out, g.corpusRepeat("m")...)
+		out = append(out, g.famNames("m", []string{"email", "maxlength"})...)
 	}
 	return out
 }
